@@ -20,6 +20,23 @@ fn fnv(data: &[u8], mut h: u64) -> u64 {
     h
 }
 
+/// Multi-byte pattern: lines "é€😀0000000\n" (17 bytes, so 4096-byte write boundaries fall inside
+/// characters), cut at the last character boundary <= n.
+pub fn pattern_bytes_utf8(n: usize) -> Vec<u8> {
+    let mut v = Vec::with_capacity(n + 32);
+    let mut i = 0u64;
+    while v.len() < n {
+        v.extend_from_slice(format!("é€😀{:07}\n", i % 10_000_000).as_bytes());
+        i += 1;
+    }
+    let mut end = n;
+    while end > 0 && (v[end] & 0xC0) == 0x80 {
+        end -= 1;
+    }
+    v.truncate(end);
+    v
+}
+
 pub fn pattern_bytes(n: usize) -> Vec<u8> {
     // lines "0000000\n" "0000001\n" … (8 bytes each), truncated to n bytes
     let mut v = Vec::with_capacity(n + 8);
@@ -212,10 +229,10 @@ pub fn main(name: &str, args: &[String]) -> i32 {
         "vfalse" => 1,
         "vexit" | "vstatus" => args.first().and_then(|s| s.parse().ok()).unwrap_or(0),
         "vprod" => {
-            // vprod N [delay_ms]: N bytes of pattern; SIGPIPE default action applies
+            // vprod N [u]: N bytes of pattern (u: multi-byte UTF-8 pattern); SIGPIPE default action applies
             let n: usize = args.first().and_then(|s| s.parse().ok()).unwrap_or(0);
             unsafe { libc::signal(libc::SIGPIPE, libc::SIG_DFL) };
-            let data = pattern_bytes(n);
+            let data = if args.get(1).map(|s| s == "u").unwrap_or(false) { pattern_bytes_utf8(n) } else { pattern_bytes(n) };
             for chunk in data.chunks(4096) {
                 if out.write_all(chunk).is_err() {
                     return 141;
